@@ -74,6 +74,17 @@ func buildUniverse(t *testing.T, hostsSel func(h string) bool, schemes []string,
 	}
 	l253 := longHost(253)
 	hs = append(hs, hdesc{l253, false, false}, hdesc{l253[1:], false, false}, hdesc{l253 + ".", false, false}, hdesc{l253[4:] + ".", false, false})
+	// hosts with as many labels as a domain name can have: 127 one-byte labels, with and without the trailing dot, and short
+	// bases under which the deepest probes reach that count (lesson of seeded change C01-p: a label-count limit off by one
+	// for absolute names)
+	m127 := ""
+	for i := 0; i < 127; i++ {
+		if i > 0 {
+			m127 += "."
+		}
+		m127 += string(rune('a' + i%26))
+	}
+	hs = append(hs, hdesc{m127, false, false}, hdesc{m127 + ".", false, false}, hdesc{m127[2:] + ".", false, false}, hdesc{"z.y.", false, false}, hdesc{"z.y", false, false}, hdesc{"q.z.y.", false, false})
 	for _, h := range hs {
 		if hostsSel != nil && !hostsSel(h.host) {
 			continue
